@@ -154,7 +154,10 @@ struct crs {
         nrows(other.nrows), ncols(other.ncols), nnz(other.nnz),
         ptr(0), col(0), val(0), own_data(true)
     {
-        if (other.ptr && other.col && other.val) {
+        // A matrix without stored entries may come with null col/val arrays
+        // (e.g. zero_copy of empty std::vectors); its row pointers still
+        // have to be copied.
+        if (other.ptr && ((other.col && other.val) || nnz == 0)) {
             ptr = new ptr_type[nrows + 1];
             col = new col_type[nnz];
             val = new val_type[nnz];
@@ -191,7 +194,10 @@ struct crs {
         ncols = other.ncols;
         nnz   = other.nnz;
 
-        if (other.ptr && other.col && other.val) {
+        // A matrix without stored entries may come with null col/val arrays
+        // (e.g. zero_copy of empty std::vectors); its row pointers still
+        // have to be copied.
+        if (other.ptr && ((other.col && other.val) || nnz == 0)) {
             ptr = new ptr_type[nrows + 1];
             col = new col_type[nnz];
             val = new val_type[nnz];
